@@ -1033,15 +1033,34 @@ func c08Judge(rt *rapid.T, rec *verifx.Recorder, r *c08Run, caseStart uint64, ca
 			}
 		case actualCommit && len(changed) > 0 && av:
 			sig := "verification-does-not-cover-observation"
+			// Is every changed observation a listing whose shipped verification covers exactly the stored entries that
+			// existed at the start index (the iteration ran out of stored entries, so the backend shipped limit =
+			// number of entries seen), while more stored entries exist now? Then entries that appeared behind the
+			// ones seen are invisible to the verification.
 			phantom := true
+			atStart := stateAt(t.Start)
 			for _, o := range t.Obs {
-				now := c08Expect(o, cur)
-				if now == o.got() {
+				if c08Expect(o, cur) == o.got() {
 					continue
 				}
-				// a listing that was not cut short by its limit: the backend ships a verification limited to the
-				// number of stored entries it iterated, so stored entries appearing behind them go unnoticed
-				if o.Kind != "list" || (o.Limit > 0 && len(o.GotList) >= o.Limit) {
+				if o.Kind != "list" {
+					phantom = false
+					continue
+				}
+				covered := false
+				for _, vop := range ops {
+					if vop.OpType != verifyListOp {
+						continue
+					}
+					params, err := parseListVerifyParams(vop.Key)
+					if err != nil || params.Prefix != o.Prefix || params.After != o.After || params.Limit <= 0 {
+						continue
+					}
+					if len(c08ModelList(atStart, o.Prefix, o.After, -1)) == params.Limit && len(c08ModelList(cur, o.Prefix, o.After, -1)) > params.Limit {
+						covered = true
+					}
+				}
+				if !covered {
 					phantom = false
 				}
 			}
